@@ -590,7 +590,8 @@ def obj2bytes(obj):
     """Bytes representation of an object for hashing"""
     if isinstance(obj, str):
         return obj.encode("utf-8")
-    elif isinstance(obj, (bool, int, float, np.bool_)):
+    elif isinstance(obj, (bool, int, float, np.bool_, np.integer,
+                          np.floating)):
         return str(float(obj)).encode("utf-8")
     elif obj is None:
         return b"none"
